@@ -129,7 +129,25 @@ theorem sweepOne_cframe {c : Ctx} {root temps} (h : CInv c root temps) :
     CFrame c.metrics c.sweepOne.1.metrics := ⟨sweepOne_mframe c, sweepOne_sum h⟩
 
 theorem debtBreak_payDebt {c : Ctx} (h : c.debtBreak .payDebt = true) : c.metrics.hasDebt = false := by
-  simpa [Ctx.debtBreak] using h
+  simp only [Ctx.debtBreak, decide_true, Bool.true_and, Bool.and_eq_true, Bool.not_eq_true'] at h
+  exact h.1
+
+/-- The loop never stops on the debt test in `Sweep` with nothing left to sweep (repair D5). -/
+theorem debtBreak_not_parked {c : Ctx} {ru} (h : c.debtBreak ru = true) : ¬ (c.phase = .sweep ∧ c.rest = []) := by
+  simp only [Ctx.debtBreak, Bool.and_eq_true, Bool.not_eq_true', Bool.and_eq_false_iff,
+    decide_eq_false_iff_not, List.isEmpty_eq_false_iff] at h
+  rintro ⟨h1, h2⟩
+  rcases h.2 with h3 | h3
+  · exact h3 h1
+  · exact h3 h2
+
+theorem not_debtBreak_payDebt {c : Ctx} (h : ¬ c.debtBreak .payDebt = true) (hp : c.phase ≠ .sweep) :
+    c.metrics.hasDebt = true := by
+  simp only [Ctx.debtBreak, decide_true, Bool.true_and, Bool.and_eq_true, Bool.not_eq_true',
+    Bool.and_eq_false_iff, decide_eq_false_iff_not, not_and] at h
+  cases hd : c.metrics.hasDebt with
+  | true => rfl
+  | false => exact absurd (Or.inl hp) (h hd)
 
 /-- A `cycle_debt` / `finish_cycle` loop (`Stop::FinishCycle`) that ends with the collector not
     asleep never ran `finish_cycle`; and a debt-driven one that *returned* that way stopped
@@ -321,46 +339,67 @@ theorem ZeroWork.empty_of_not_hasDebt {m : Metrics} (z : ZeroWork m.pacing) (hd 
   rw [z.credits] at this
   grind
 
-/-- With all work factors zero, a `collect_debt` loop entered with positive debits returns only
-    Sleeping — or with an arena that holds no allocation any more. -/
-theorem collectLoop_stw {root fault} (fuel : Nat) :
+theorem hasDebt_total {m : Metrics} (h : m.hasDebt = true) : m.totalGcs ≠ 0 := by
+  intro h0
+  simp only [Metrics.hasDebt, decide_eq_true_eq] at h
+  unfold Metrics.allocationDebt at h
+  rw [if_pos h0] at h
+  exact absurd h Rat.lt_irrefl
+
+/-- With all work factors zero, a debt-driven loop that runs whole cycles (`Stop::FinishCycle` or
+    `Stop::Full`), entered with positive debits and a non-empty arena, returns only Sleeping. -/
+theorem collectLoop_stw {root fault stop} (hst : ¬ stop ≤ Stop.atSweep) (fuel : Nat) :
     ∀ (c : Ctx) (hs : Bool) (k : Nat) (c' : Ctx), CInv c root [] → ZeroWork c.metrics.pacing →
-      0 < c.metrics.cycleDebits →
-      Ctx.collectLoop root .payDebt .full fault fuel c hs k = (c', .returned) →
-      c'.phase = .sleep ∨ c'.metrics.totalGcs = 0 := by
+      0 < c.metrics.cycleDebits → (c.phase ≠ .sweep → c.metrics.totalGcs ≠ 0) →
+      Ctx.collectLoop root .payDebt stop fault fuel c hs k = (c', .returned) →
+      c'.phase = .sleep := by
   induction fuel with
-  | zero => intro c hs k c' _ _ _ h; simp [Ctx.collectLoop] at h
+  | zero => intro c hs k c' _ _ _ _ h; simp [Ctx.collectLoop] at h
   | succ fuel ih =>
-    intro c hs k c' hinv hz hd h
-    have nle1 : ¬ (Stop.full ≤ Stop.fullyMarked) := by decide
-    have nle2 : ¬ (Stop.full ≤ Stop.atSweep) := by decide
-    have ret : ∀ (c1 : Ctx), MFrame c.metrics c1.metrics → c1.debtBreak .payDebt = true →
-        (c1, Exit.returned) = (c', Exit.returned) → c'.phase = .sleep ∨ c'.metrics.totalGcs = 0 := by
-      intro c1 f hb he
-      simp only [Prod.mk.injEq, and_true] at he
-      rw [← he]
-      right
+    intro c hs k c' hinv hz hd hne h
+    have nle1 : ¬ (stop ≤ Stop.fullyMarked) := by
+      intro h1; apply hst
+      cases stop <;> first | decide | exact absurd h1 (by decide)
+    -- a return through the debt test is impossible: no debt with zero credits means an empty
+    -- arena, which is only possible while Sweeping with nothing left — where the loop does not stop
+    have ret : ∀ (c1 : Ctx), MFrame c.metrics c1.metrics → CInv c1 root [] →
+        (c1.phase ≠ .sweep → c1.metrics.totalGcs ≠ 0) → c1.debtBreak .payDebt = true → False := by
+      intro c1 f h1 hne1 hb
       have hz1 : ZeroWork c1.metrics.pacing := by rw [f.pacing]; exact hz
-      exact hz1.empty_of_not_hasDebt (by rw [f.debits]; exact hd) (debtBreak_payDebt hb)
+      have h0 := hz1.empty_of_not_hasDebt (by rw [f.debits]; exact hd) (debtBreak_payDebt hb)
+      have hsw : c1.phase = .sweep := Classical.byContradiction (fun hn => hne1 hn h0)
+      have hlen := h1.count
+      rw [h0] at hlen
+      have hnil : c1.pre ++ c1.rest = [] := List.eq_nil_of_length_eq_zero hlen.symm
+      exact debtBreak_not_parked hb ⟨hsw, (List.append_eq_nil_iff.mp hnil).2⟩
     have recur : ∀ (c1 : Ctx) (hs1 : Bool) (k1 : Nat), MFrame c.metrics c1.metrics → CInv c1 root [] →
-        Ctx.collectLoop root .payDebt .full fault fuel c1 hs1 k1 = (c', .returned) →
-        c'.phase = .sleep ∨ c'.metrics.totalGcs = 0 := by
-      intro c1 hs1 k1 f h1 he
-      exact ih c1 hs1 k1 c' h1 (by rw [f.pacing]; exact hz) (by rw [f.debits]; exact hd) he
+        (c1.phase ≠ .sweep → c1.metrics.totalGcs ≠ 0) →
+        Ctx.collectLoop root .payDebt stop fault fuel c1 hs1 k1 = (c', .returned) →
+        c'.phase = .sleep := by
+      intro c1 hs1 k1 f h1 hne1 he
+      exact ih c1 hs1 k1 c' h1 (by rw [f.pacing]; exact hz) (by rw [f.debits]; exact hd) hne1 he
     unfold Ctx.collectLoop at h
     cases hp : c.phase with
     | drop => exact absurd hp hinv.notDrop
     | sleep =>
       simp only [hp] at h
       have f1 : MFrame c.metrics (c.switch .mark).metrics := MFrame.refl _
+      have hne1 : (c.switch .mark).phase ≠ .sweep → (c.switch .mark).metrics.totalGcs ≠ 0 :=
+        fun _ => hne (by rw [hp]; simp)
       split at h
-      · rename_i hb; exact ret _ f1 hb h
-      · exact recur _ _ _ f1 (wake_spec hinv hp) h
+      · rename_i hb; exact absurd hb (fun hb => ret _ f1 (wake_spec hinv hp) hne1 hb)
+      · exact recur _ _ _ f1 (wake_spec hinv hp) hne1 h
     | mark =>
       simp only [hp] at h
       have hsp := markOne_spec hinv hp (faultAt fault k) (root := root)
-      have f1 : MFrame c.metrics (c.markOne root (faultAt fault k)).1.metrics :=
-        (markOne_markPrim hinv _).mf
+      have hprim := markOne_markPrim hinv (faultAt fault k) (root := root)
+      have f1 : MFrame c.metrics (c.markOne root (faultAt fault k)).1.metrics := hprim.mf
+      have htot : (c.markOne root (faultAt fault k)).1.metrics.totalGcs = c.metrics.totalGcs := by
+        have e1 := hsp.1.count
+        have e2 := hinv.count
+        rw [hsp.2.pre, hsp.2.rest] at e1
+        omega
+      have hne0 : c.metrics.totalGcs ≠ 0 := hne (by rw [hp]; simp)
       cases hg : c.grayRemaining with
       | false =>
         rw [markOne_break _ hg] at h hsp f1
@@ -368,77 +407,84 @@ theorem collectLoop_stw {root fault} (fuel : Nat) :
         have hg' : (c.step 'b').grayRemaining = false := hg
         have h2 : CInv (c.step 'b').enterSweep root [] := enterSweep_spec hsp.1 hp hg'
         have f2 : MFrame c.metrics (c.step 'b').enterSweep.metrics := f1
+        have hne2 : (c.step 'b').enterSweep.phase ≠ .sweep → (c.step 'b').enterSweep.metrics.totalGcs ≠ 0 :=
+          fun hn => absurd rfl hn
         split at h
-        · rename_i hb; exact ret _ f2 hb h
-        · exact recur _ _ _ f2 h2 h
+        · rename_i hb; exact absurd hb (fun hb => ret _ f2 h2 hne2 hb)
+        · exact recur _ _ _ f2 h2 hne2 h
       | true =>
         have hnb := markOne_not_break (root := root) (faultAt fault k) hg
-        generalize hmo : c.markOne root (faultAt fault k) = r at h hsp f1 hnb
+        generalize hmo : c.markOne root (faultAt fault k) = r at h hsp f1 hnb htot
         obtain ⟨c1, fl⟩ := r
-        simp only at h hsp f1 hnb
+        simp only at h hsp f1 hnb htot
+        have hne1 : c1.phase ≠ .sweep → c1.metrics.totalGcs ≠ 0 := fun _ => by rw [htot]; exact hne0
         cases fl with
         | «break» => exact absurd rfl hnb
         | unwind => simp at h
         | «continue» =>
           simp only at h
           split at h
-          · rename_i hb; exact ret _ f1 hb h
-          · exact recur _ _ _ f1 hsp.1 h
+          · rename_i hb; exact absurd hb (fun hb => ret _ f1 hsp.1 hne1 hb)
+          · exact recur _ _ _ f1 hsp.1 hne1 h
     | sweep =>
-      simp only [hp, nle2, if_false] at h
+      simp only [hp, hst, if_false] at h
       have hsp := sweepOne_spec hinv hp
       have f1 : MFrame c.metrics c.sweepOne.1.metrics := sweepOne_mframe c
       cases hr : c.rest with
       | nil =>
         rw [sweepOne_end hr] at h
-        have hne : ¬ (Stop.full = Stop.finishCycle) := by decide
-        simp only [hne, if_false, if_true] at h
         have h1 : CInv (c.step 'e') root [] := hinv.sameView (sameView_step c 'e')
         have h2 : CInv ((c.step 'e').enterSleep hs) root [] := enterSleep_spec h1 hp hr hs
         have hph : ((c.step 'e').enterSleep hs).phase = .sleep := rfl
-        split at h
-        · simp only [Prod.mk.injEq, and_true] at h
-          left; rw [← h]; exact hph
-        · split at h
-          · simp only [Prod.mk.injEq, and_true] at h
-            left; rw [← h]; exact hph
-          · rename_i hnb
-            have hdb : ((c.step 'e').enterSleep hs).metrics.hasDebt = true := by
-              simpa [Ctx.debtBreak] using hnb
-            exact ih _ _ _ c' h2 hz (hasDebt_debits hdb) h
-      | cons i rest' =>
-        have hne : c.rest ≠ [] := by rw [hr]; simp
-        have hfl := sweepOne_flow hne
-        rw [show c.sweepOne = (c.sweepOne.1, c.sweepOne.2) from rfl, hfl] at h
         simp only at h
         split at h
-        · rename_i hb; exact ret _ f1 hb h
-        · exact recur _ _ _ f1 hsp.1 h
+        · simp only [Prod.mk.injEq, and_true] at h
+          rw [← h]; exact hph
+        · split at h
+          · simp only [Prod.mk.injEq, and_true] at h
+            rw [← h]
+            split
+            · exact hph
+            · show (((c.step 'e').enterSleep hs).fail .unreachable).phase = .sleep
+              rw [Ctx.fail_phase]; exact hph
+          · split at h
+            · simp only [Prod.mk.injEq, and_true] at h
+              rw [← h]; exact hph
+            · rename_i hnb
+              have hdb : ((c.step 'e').enterSleep hs).metrics.hasDebt = true :=
+                not_debtBreak_payDebt hnb (by rw [hph]; simp)
+              exact ih _ _ _ c' h2 hz (hasDebt_debits hdb) (fun _ => hasDebt_total hdb) h
+      | cons i rest' =>
+        have hne' : c.rest ≠ [] := by rw [hr]; simp
+        have hfl := sweepOne_flow hne'
+        rw [show c.sweepOne = (c.sweepOne.1, c.sweepOne.2) from rfl, hfl] at h
+        simp only at h
+        have hne1 : c.sweepOne.1.phase ≠ .sweep → c.sweepOne.1.metrics.totalGcs ≠ 0 :=
+          fun hn => absurd hsp.2 hn
+        split at h
+        · rename_i hb; exact absurd hb (fun hb => ret _ f1 hsp.1 hne1 hb)
+        · exact recur _ _ _ f1 hsp.1 hne1 h
 
-/-- **Stop-the-world pacing, what holds** (C09): with all five work factors zero, `collect_debt`
-    called with positive debt returns Sleeping — or with an arena holding no allocation (known
-    finding `stw-returns-sweeping-when-arena-emptied`). -/
+/-- **Stop-the-world pacing** (C09): with all five work factors zero, `collect_debt` called with
+    positive debt does not return until the collector is Sleeping again. -/
 theorem doCollection_stw {c c' : Ctx} {root : List Slot} {fault : TraceFault} (hinv : CInv c root [])
     (hz : ZeroWork c.metrics.pacing) (hd : 0 < c.metrics.allocationDebt)
     (hr : c.doCollection root .payDebt .full fault = (c', .returned)) :
-    c'.phase = .sleep ∨ c'.metrics.totalGcs = 0 := by
+    c'.phase = .sleep := by
   have hhd : c.metrics.hasDebt = true := by simpa [Metrics.hasDebt] using hd
   unfold Ctx.doCollection at hr
   simp only [hhd, decide_true, Bool.not_true, Bool.and_false, Bool.false_eq_true, if_false] at hr
-  exact collectLoop_stw _ _ _ _ _ hinv hz (hasDebt_debits hhd) hr
+  exact collectLoop_stw (by decide) _ _ _ _ _ hinv hz (hasDebt_debits hhd) (fun _ => hasDebt_total hhd) hr
 
 /-- … and the same for `cycle_debt` (`Stop::FinishCycle`). -/
 theorem doCollection_stw_cycle {c c' : Ctx} {root : List Slot} {fault : TraceFault}
     (hinv : CInv c root []) (hz : ZeroWork c.metrics.pacing) (hd : 0 < c.metrics.allocationDebt)
     (hr : c.doCollection root .payDebt .finishCycle fault = (c', .returned)) :
-    c'.phase = .sleep ∨ c'.metrics.totalGcs = 0 := by
-  by_cases hs : c'.phase = .sleep
-  · exact Or.inl hs
-  · right
-    have hhd : c.metrics.hasDebt = true := by simpa [Metrics.hasDebt] using hd
-    obtain ⟨fr, hnd⟩ := doCollection_cycle_frame hinv hr hs
-    have hz' : ZeroWork c'.metrics.pacing := by rw [fr.mf.pacing]; exact hz
-    exact hz'.empty_of_not_hasDebt (by rw [fr.mf.debits]; exact hasDebt_debits hhd) (hnd rfl rfl)
+    c'.phase = .sleep := by
+  have hhd : c.metrics.hasDebt = true := by simpa [Metrics.hasDebt] using hd
+  unfold Ctx.doCollection at hr
+  simp only [hhd, decide_true, Bool.not_true, Bool.and_false, Bool.false_eq_true, if_false] at hr
+  exact collectLoop_stw (by decide) _ _ _ _ _ hinv hz (hasDebt_debits hhd) (fun _ => hasDebt_total hhd) hr
 
 /-! ### Sleep is honoured -/
 
@@ -495,27 +541,5 @@ theorem sleep_honoured {c : Ctx} (root : List Slot) (stop : Stop) (fault : Trace
       rw [if_neg hne, if_neg (by rw [hdeb]; grind), hcred, hdeb]
       grind
     exact ⟨by rw [hv]; grind, hv⟩
-
-/-! ### The corner behind `stw-returns-sweeping-when-arena-emptied` -/
-
-/-- A debt-driven call that sweeps the last allocation away returns right there — Sweeping, one
-    step before the `Sweep → Sleep` switch — because an empty arena reports zero debt. -/
-theorem doCollection_sweep_last {c : Ctx} {root : List Slot} {stop : Stop} {fault : TraceFault}
-    (hp : c.phase = .sweep) (hr : c.rest ≠ []) (hstop : ¬ stop ≤ Stop.atSweep)
-    (hd : c.metrics.hasDebt = true) (he : c.sweepOne.1.metrics.totalGcs = 0) :
-    c.doCollection root .payDebt stop fault = (c.sweepOne.1, .returned) := by
-  unfold Ctx.doCollection
-  simp only [hd, decide_true, Bool.not_true, Bool.and_false, Bool.false_eq_true, if_false]
-  show Ctx.collectLoop root .payDebt stop fault (2 * c.fuelBound root + 7 + 1) c false 0 = _
-  unfold Ctx.collectLoop
-  simp only [hp, hstop, if_false]
-  have hfl := sweepOne_flow hr
-  rw [show c.sweepOne = (c.sweepOne.1, c.sweepOne.2) from rfl, hfl]
-  simp only
-  have hnd : c.sweepOne.1.metrics.hasDebt = false := by
-    simp only [Metrics.hasDebt, decide_eq_false_iff_not]
-    unfold Metrics.allocationDebt
-    rw [if_pos he]; exact Rat.lt_irrefl
-  simp [Ctx.debtBreak, hnd]
 
 end GcArena
